@@ -164,7 +164,7 @@ def parse_playback(t):
     return tests
 
 
-def kani_cmd(harnesses, playback=False, jobs=4):
+def kani_cmd(harnesses, playback=False, jobs=6):
     cmd = ['cargo', 'kani', '-Z', 'function-contracts', '-Z', 'stubbing']
     if playback:
         cmd += ['-Z', 'concrete-playback', '--concrete-playback=print']
